@@ -58,14 +58,19 @@ def run_one(name, with_tests, tier):
         if r.returncode != 0:
             out["patch_error"] = (r.stdout + r.stderr)[-400:]
             return out
-        demo = os.path.join(tmp, "demo.py")
-        shutil.copy(os.path.join(d, "demo.py"), demo)
         env = dict(os.environ, PYTHONWARNINGS="ignore")
-        # (demonstrations are written to be run from the root of the tree they test)
-        r1 = sh(["/venv/bin/python", demo], env=dict(env, PYTHONPATH=dst), cwd=dst, timeout=900)
         clean = os.path.join(tmp, "clean")  # an unpatched copy, so that a demo writing into its cwd cannot touch /repo
         shutil.copytree(REPO, clean, ignore=shutil.ignore_patterns(".git", "__pycache__", "*.pyc", "docs", "benchmarks", "presentations", "MUTANTS"))
-        r0 = sh(["/venv/bin/python", demo], env=dict(env, PYTHONPATH=clean), cwd=clean, timeout=900)
+
+        def run_demo(root):
+            # demonstrations were written inside <tree>/MUTANTS/m<k>/ and find the tree they test relative to their own location,
+            # through the current directory, PYTHONPATH or ELIOT_ROOT: reproduce that layout
+            ddir = os.path.join(root, "MUTANTS", "m")
+            os.makedirs(ddir, exist_ok=True)
+            shutil.copy(os.path.join(d, "demo.py"), os.path.join(ddir, "demo.py"))
+            return sh(["/venv/bin/python", os.path.join(ddir, "demo.py")], env=dict(env, PYTHONPATH=root, ELIOT_ROOT=root), cwd=root, timeout=900)
+        r1 = run_demo(dst)
+        r0 = run_demo(clean)
         out["demo_on_mutant_exit"] = r1.returncode
         out["demo_on_repo_exit"] = r0.returncode
         out["demo_confirms"] = r1.returncode != 0 and r0.returncode == 0
